@@ -31,6 +31,6 @@ func drawGeneral(t *rapid.T, p gen.Profile, wo gen.WindowOpts, do gen.DataOpts) 
 
 func TestC01(t *testing.T) {
 	runProp(t, "C01", func(t *rapid.T) *core.Case {
-		return drawGeneral(t, gen.Profile{MaxDepth: 4, Nameless: true}, gen.WindowOpts{}, gen.DataOpts{Specials: true, Histogram: true, Twins: true})
+		return drawGeneral(t, gen.Profile{MaxDepth: 4, Nameless: true}, gen.WindowOpts{Long: true}, gen.DataOpts{Specials: true, Histogram: true, Twins: true, Big: true})
 	})
 }
